@@ -19,6 +19,7 @@ class Generated:
     def __init__(self):
         self.lines = []  # text
         self.meta = []  # per line: dict(origin=, tags=frozenset)
+        self.auto_consts = {}  # rule D4
         self.functions = {}  # name -> dict(kind='extracted'|'template', module=, sha256=, rules=, src=...)
         self.expect_fail = set()
         self.lost = []
@@ -96,8 +97,9 @@ def load_sidecar(unit, fn_name):
     return body
 
 
-def sig_of(body):
-    """the //@sig block of a sidecar (without region tags)"""
+def sig_of(body, keep_tags=False):
+    """the //@sig block of a sidecar; region tags (`//# ...` lines) are dropped for stubs and kept for `//@sig-of`, so that a
+    function that shares another one's contract also shares the property tags of its clauses"""
     out = []
     on = False
     for ln in body:
@@ -107,8 +109,10 @@ def sig_of(body):
             continue
         if on:
             if s.startswith('//#'):
+                if keep_tags:
+                    out.append(ln)
                 continue
-            out.append(re.sub(r'//#.*$', '', ln).rstrip())
+            out.append(ln.rstrip() if keep_tags else re.sub(r'//#.*$', '', ln).rstrip())
     return out
 
 
@@ -120,9 +124,13 @@ except (OSError, ValueError):
     LOCALS = {}
 
 
+TEMPLATE_TEXT = {}
+
+
 def process_template(path, crate, repo, gen=None, depth=0):
     gen = gen or Generated()
     src = open(path).read().split('\n')
+    TEMPLATE_TEXT[path] = '\n'.join(src)
     rel = os.path.relpath(path, VERIF)
     tags = frozenset()
     sidecars = gen.sidecars
@@ -242,7 +250,7 @@ def process_template(path, crate, repo, gen=None, depth=0):
                         raise ExtractionError(f'{rel}:{i+1}: //@sig-of {other}: unknown function')
                     this = arg.split()[1]
                     nb.append('//@sig')
-                    nb.extend(re.sub(r'\bfn ' + re.escape(other) + r'\b', 'fn ' + this, l3) for l3 in sig_of(sidecars[other]))
+                    nb.extend(re.sub(r'\bfn ' + re.escape(other) + r'\b', 'fn ' + this, l3) for l3 in sig_of(sidecars[other], keep_tags=True))
                 else:
                     nb.append(bl)
             body = nb
@@ -257,6 +265,26 @@ def process_template(path, crate, repo, gen=None, depth=0):
             else:
                 woven = X.weave(fn, sc, log, lost, gen.unit_rewrites, expected_locals=LOCALS.get(lkey))
             gen.lost.extend(lost)
+            # D4: a constant of the function's module that the function mentions and the unit does not declare is extracted too
+            # (so that a changed tree that introduces a constant stays inside the verifier's reach)
+            body_text = X.join(fn['body'])
+            for cname in sorted(set(re.findall(r'\b[A-Z][A-Z0-9_]{2,}\b', body_text))):
+                if cname in gen.auto_consts or re.search(r'\bconst ' + cname + r'\b', '\n'.join(gen.lines)) or re.search(r'//@const \S+ ' + cname + r'\b', TEMPLATE_TEXT.get(path, '')):
+                    continue
+                mod_try = sc.module
+                while True:
+                    try:
+                        toks_c = X.strip_attrs(crate.find_item(mod_try, 'const', cname))
+                        txt_c = re.sub(r'\bpub\(crate\)\s+', 'pub ', X.item_text(toks_c))
+                        for rid, pat, rep in X.GLOBAL_RULES:
+                            txt_c = re.sub(pat, rep, txt_c)
+                        gen.auto_consts[cname] = (txt_c, f'/repo {mod_try}::{cname}')
+                        gen.rule_counts['D4'] = gen.rule_counts.get('D4', 0) + 1
+                        break
+                    except ExtractionError:
+                        if '::' not in mod_try:
+                            break
+                        mod_try = mod_try.rsplit('::', 1)[0]
             for k, v in log.counts.items():
                 gen.rule_counts[k] = gen.rule_counts.get(k, 0) + v
             sha = hashlib.sha256(X.join(fn['sig'] + fn['body']).encode()).hexdigest()
@@ -304,6 +332,13 @@ def process_template(path, crate, repo, gen=None, depth=0):
 def generate(unit, crate, repo):
     path = os.path.join(VERIF, 'units', unit + '.vrs')
     gen = process_template(path, crate, repo)
+    # D4: constants mentioned by extracted functions and declared nowhere in the unit
+    full = '\n'.join(gen.lines)
+    for cname, (txt_c, origin_c) in sorted(gen.auto_consts.items()):
+        if not re.search(r'\b(const|static) ' + cname + r'\b', full):
+            gen.add(txt_c, origin_c, frozenset())
+        else:
+            gen.rule_counts['D4'] = gen.rule_counts.get('D4', 1) - 1
     # register template-level functions
     for k, ln in enumerate(gen.lines):
         m = FN_RE.match(ln)
